@@ -5,6 +5,7 @@ import Csproto.Bridge.WireFuncs2
 import Csproto.Bridge.DecoderFuncs
 import Csproto.Bridge.SkipFuncs
 import Csproto.Props.C03Source
+import Csproto.Bridge.SeekFuncs
 /- axiom audit for C03 -/
 open Csproto
 #print axioms C03.step_safe
@@ -69,3 +70,7 @@ open Csproto
 -- bool paths of the current source: DecodeBool / More / EncodeBool (the byte for false is stored, whatever the destination held)
 #print axioms Csproto.Bridge.DecoderFuncs.DecodeBool_refines
 #print axioms Csproto.Bridge.DecoderFuncs.More_refines
+
+-- Seek of the current decoder.go (wrapping 64-bit arithmetic, bounds test) refines Dec.step (.seek o w)
+#print axioms Csproto.Bridge.SeekFuncs.Seek_refines
+#print axioms Csproto.Bridge.SeekFuncs.wrap_add
